@@ -7,6 +7,7 @@ import Driver.GuardCmd
 import Driver.AutoCmd
 import Driver.DdeCmd
 import Driver.GridCmd
+import Driver.GammaCmd
 open Lean PyRates.Driver
 
 def dispatch (comp : String) (j : Json) : Except String Json :=
@@ -22,6 +23,7 @@ def dispatch (comp : String) (j : Json) : Except String Json :=
   | "auto" => autoCmd j
   | "dde" => ddeCmd j
   | "grid" => gridCmd j
+  | "gamma" => gammaCmd j
   | _ => .error s!"unknown component {comp}"
 
 partial def loop (h : IO.FS.Stream) (out : IO.FS.Stream) : IO Unit := do
